@@ -1619,35 +1619,42 @@ std::ostream& expression_t::print(std::ostream& os, bool old) const
         get(1).print(os, old);
         break;
 
+    // MITL formulas are written as in the grammar: "Pr <formula>" with "(p U[l,u] q)", "(p R[l,u] q)", "(X p)",
+    // and "&&" / "||" between formulas (MITLExpression in parser.y; expr_binary turns AND / OR into MITL_CONJ / _DISJ).
     case MITL_FORMULA:
-        os << "MITL: ";
+        os << "Pr ";
         get(0).print(os, old);
         break;
     case MITL_RELEASE:
     case MITL_UNTIL:
-        get(0).print(os, old) << "U[";
-        get(1).print(os, old) << ";";
-        get(2).print(os, old) << "]";
-        get(3).print(os, old);
+        get(0).print(os << "(", old) << (data->kind == MITL_UNTIL ? " U[" : " R[");
+        get(1).print(os, old) << ",";
+        get(2).print(os, old) << "] ";
+        get(3).print(os, old) << ")";
         break;
 
     case MITL_DISJ:
-        get(0).print(os, old) << "\\/";
-        get(1).print(os, old);
+        get(0).print(os << "(", old) << " || ";
+        get(1).print(os, old) << ")";
         break;
     case MITL_CONJ:
-        get(0).print(os, old) << "/\\";
-        get(1).print(os, old);
+        get(0).print(os << "(", old) << " && ";
+        get(1).print(os, old) << ")";
         break;
     case MITL_ATOM: get(0).print(os, old); break;
     case MITL_NEXT:
-        os << "X(";
+        os << "(X ";
         get(0).print(os, old) << ")";
         break;
-    case SPAWN: os << "SPAWN"; break;
-    case EXIT: os << "EXIT"; break;
+    case SPAWN:  // spawn Template(arguments)
+        get(0).print(os << "spawn ", old) << "(";
+        for (uint32_t i = 1; i < get_size(); ++i)
+            get(i).print(os << (i > 1 ? ", " : ""), old);
+        os << ")";
+        break;
+    case EXIT: os << "exit()"; break;
     case NUMOF:
-        os << "numof(";
+        os << "numOf(";
         get(0).print(os, old) << ")";
         break;
     case MITL_FORALL:
